@@ -7,6 +7,7 @@ identifier -> instantiated tree, pybind output and MATLAB toolbox byte-identical
 """
 from __future__ import annotations
 
+import collections
 from dataclasses import replace
 
 from hypothesis import strategies as st
@@ -59,12 +60,16 @@ def _replace_nth_template(m, n, new_tpl):
 
 @st.composite
 def cases(draw, tier):
-    m = draw(G.modules(IC.profile()).filter(lambda x: bool(_templates(x))))
+    m = draw(G.modules(IC.profile()).filter(
+        lambda x: bool(_templates(x)) or any(isinstance(i, M.Typedef) for _, i in M.iter_items(x))))
     tpls = _templates(m)
     multi = [i for i, t in enumerate(tpls) if any(len(p.insts) >= 2 for p in t.params)]
     kinds = []
     if multi:
         kinds += ['sublist'] * 5
+    tds = [it for _, it in M.iter_items(m) if isinstance(it, M.Typedef)]
+    if len(tds) >= 2:
+        kinds += ['drop-typedef'] * 3
     if tpls:
         kinds += ['rename'] * 3
     kinds += ['reparse']
@@ -79,6 +84,10 @@ def cases(draw, tier):
             params.append(replace(p, insts=tuple(perm[:k])))
         m2 = _replace_nth_template(m, n, M.Template(tuple(params)))
         return (m, ('sublist', n), m2)
+    if kind == 'drop-typedef':
+        victim = tds[draw(st.integers(0, len(tds) - 1))]
+        m2 = M.map_items(m, lambda it: None if it is victim else it)
+        return (m, ('sublist', 'drop typedef ' + victim.name), m2)
     if kind == 'rename':
         used = set(M.identifiers(m))
         m2 = m
@@ -143,14 +152,19 @@ def _pybind_blocks(tree):
     return out
 
 
-def _filter_methods(cls_dict, other):
-    """Restrict the method lists of two class dicts to the (name, cpp) keys they share."""
-    a = dict(cls_dict)
-    for grp in ('ctors', 'methods', 'statics'):
-        keys = {(x['name'], x['cpp']) for x in other[grp]}
-        a[grp] = sorted((x for x in cls_dict[grp] if (x['name'], x['cpp']) in keys),
-                        key=lambda x: (x['name'], x['cpp']))  # stable: overloads keep order
-    return a
+def _contained(sub, full):
+    """Every member of the class instantiated from the sublist occurs, identically, in the class
+    instantiated from the full list (as multisets; the rest of the class is equal)."""
+    import json
+    for k in sub:
+        if k in ('ctors', 'methods', 'statics'):
+            a = collections.Counter(json.dumps(x, sort_keys=True) for x in sub[k])
+            b = collections.Counter(json.dumps(x, sort_keys=True) for x in full[k])
+            if a - b:
+                return False
+        elif sub[k] != full.get(k):
+            return False
+    return True
 
 
 def check(case):
@@ -159,7 +173,15 @@ def check(case):
     try:
         tree = instproj.instantiate(text)
     except Exception as e:
-        return []  # C08 reports instantiation failures
+        if kind == 'sublist':
+            # requesting fewer instantiations must not turn a failing input into a working one
+            try:
+                instproj.instantiate(text2)
+            except Exception:
+                return []  # C08 reports instantiation failures
+            return [Failure('C13.raises-differs', 'the full request raises %s but the reduced '
+                            'request (%s) is instantiated' % (type(e).__name__, arg))]
+        return []
     base = instproj.p_scope(tree)
     out = []
     if kind == 'reparse':
@@ -212,16 +234,14 @@ def check(case):
             out.append(Failure('C13.sublist-missing', '%s %s exists with the sublist but not '
                                'with the full list' % (key[1], key[2])))
             continue
-        a, b = it1, it2
-        if a['k'] == 'class':
-            a, b = _filter_methods(a, it2), _filter_methods(b, it1)
-        if a != b:
+        same = _contained(it2, it1) if it1['k'] == 'class' else it1 == it2
+        if not same:
             out.append(Failure('C13.sublist-differs', '%s %s differs between full list and '
                                'sublist' % (key[1], key[2])))
         bk = (key[1], key[2], key[3])
-        if a['k'] == 'func' and b1.get(bk) != b2.get(bk):
+        if it1['k'] == 'func' and b1.get(bk) != b2.get(bk):
             out.append(Failure('C13.sublist-pybind', 'pybind binding of %s differs' % key[2]))
-        if a['k'] == 'class' and a == it1 and b == it2 and b1.get(bk) != b2.get(bk):
+        if it1['k'] == 'class' and it1 == it2 and b1.get(bk) != b2.get(bk):
             out.append(Failure('C13.sublist-pybind', 'pybind block of %s differs: %s' % (
                 key[2], _first_diff(b1.get(bk) or '', b2.get(bk) or ''))))
     return out
@@ -243,6 +263,8 @@ def features(case):
         f.add('rename-changes-length-or-case')
     if kind == 'sublist':
         f.add('sublist')
+        if isinstance(arg, str):
+            f.add('drop-typedef')
     return f
 
 
